@@ -24,8 +24,8 @@ RULE = (
     "JSON of the tree."
 )
 ASSUMPTIONS = [
-    "mapping keys are identifier-like strings (so the location string can be tokenised unambiguously); the key 'pipeline' is not "
-    "generated (PipelineTranslator treats it specially, C05 covers it)",
+    "locations over identifier-like keys are tokenised into keys and indices; for keys with other characters ('%', '.', blanks, brackets, "
+    "non-ASCII) the string is compared literally with the '.key' / '[index]' notation; the key 'pipeline' is not generated",
     "__args__ is always a list",
 ]
 
@@ -110,7 +110,7 @@ def ensure_pkg():
     return verifpkg_c19
 
 
-ident = st.sampled_from(["a", "b", "c", "x", "key", "k_1", "interval", "target", "nested"])
+ident = st.sampled_from(["a", "b", "c", "x", "key", "k_1", "interval", "target", "nested", "a", "b", "cpu%", "fmt %s", "50%%", "a.b", "x y", "[0]", "ünï"])
 scalar = st.one_of(st.none(), st.booleans(), st.integers(-5, 100), st.floats(-10, 10, allow_nan=False), st.sampled_from(["", "s", "text", "__type__", "a.b"]))
 
 
@@ -244,7 +244,11 @@ def run_case(spec) -> Result:
             if err is None:
                 res.fail("error-not-reported", f"{tag}: node at {failure.path} must fail ({failure.why}) but translation returned {got!r}")
                 return res
-            if tokens(err.where) != failure.path:
+            simple = all(isinstance(k, int) or __import__("re").fullmatch(r"[A-Za-z_][A-Za-z_0-9]*", k) for k in failure.path)
+            exact = "".join("[%d]" % k if isinstance(k, int) else ".%s" % k for k in failure.path)
+            # identifier-like keys: the location is tokenised (robust to a different notation); other keys (with '%', '.', blanks,
+            # brackets): the documented notation '.key' / '[index]' is compared literally
+            if (tokens(err.where) != failure.path) if simple else (err.where != exact):
                 res.fail("wrong-error-location", f"{tag}: where={err.where!r} but the offending element is at {failure.path} ({failure.why}); tree {spec}")
             if log != ev.log:
                 res.fail("calls-after-failure", f"{tag}: factory calls {log!r}, expected exactly {ev.log!r} before the failure at {failure.path}")
